@@ -772,3 +772,36 @@ def rule_SWP1(ctx, files=None):
                              % (a, b, f.loc(st), ca, cb))
     res.analysed['companion_swaps'] = nsw
     return res, nsw
+
+
+def rule_SC1(ctx, files=None):
+    res = RuleResult('SC1', 'sine and cosine results land in the variables named for them: a call Math::sincosd(x, a, b) / '
+                            'sincosde(x, t, a, b) whose result variables are named s<X> and c<X> passes the sine one first')
+    import re as _r
+    n = 0
+    seen = set()
+    for f in sorted(ctx.lib_fns(), key=lambda x: (x.file, x.line)):
+        if not _in(f, files) or f.d.get('body', -1) < 0 or (f.file, f.line, f.name) in seen:
+            continue
+        seen.add((f.file, f.line, f.name))
+        for i, nd in f.all_nodes():
+            ce = nd.get('callee') or {}
+            if ce.get('name') not in ('sincosd', 'sincosde') or not (ce.get('q') or '').startswith(NS + 'Math::'):
+                continue
+            args = nd.get('args', [])
+            if len(args) < 3:
+                continue
+            a, b = [f.nodes[f.strip_casts(x)] for x in args[-2:]]
+            na = a.get('name') if a['k'] == 'DeclRefExpr' else (a.get('m') if a['k'] == 'MemberExpr' else None)
+            nb = b.get('name') if b['k'] == 'DeclRefExpr' else (b.get('m') if b['k'] == 'MemberExpr' else None)
+            ma, mb = _r.match(r'^(_?)([sc])(\w*)$', na or ''), _r.match(r'^(_?)([sc])(\w*)$', nb or '')
+            if not ma or not mb or ma.group(3) != mb.group(3) or ma.group(2) == mb.group(2):
+                continue
+            n += 1
+            ok = ma.group(2) == 's'
+            res.ob(ok, None)
+            if not ok:
+                res.fail(f.q, '%s,%s' % (na, nb), f.loc(i), 'sincosd writes the sine to its first result and the cosine to its second: '
+                         '%s receives the sine and %s the cosine at %s' % (na, nb, f.loc(i)))
+    res.analysed['named_sine_cosine_results'] = n
+    return res, n
